@@ -62,7 +62,17 @@ const (
 	wRecDelete        // r = t.Query1(...); r.Delete()
 	wRead             // log what the transaction sees
 	wNested           // try { bb = { work; throw "in" }; bb() } catch (e2) { log } : caught inside the block
+	wComplete         // t.Complete() : the block ends its own transaction
+	wRollback         // t.Rollback()
 )
+
+// tranErr is how the model names the error raised by using, completing or
+// rolling back a transaction that has already been ended the other way
+const tranErr = "<transaction error>"
+
+func isTranErr(s string) bool {
+	return !strings.Contains(s, "duplicate key") && strings.Contains(strings.ToLower(s), "transaction")
+}
 
 type step struct {
 	kind  int
@@ -131,6 +141,10 @@ func (s step) src(d int, allowTry bool) string {
 	case wRead:
 		return t + "r = t.Query1(" + q(`"`+c42table+` where k is "`, s.k.src()) + ")\n" +
 			t + `log.Add("read " $ ` + s.k.src() + ` $ "=" $ (r is false ? "none" : r.v))` + "\n"
+	case wComplete:
+		return t + "t.Complete()\n"
+	case wRollback:
+		return t + "t.Rollback()\n"
 	case wNested:
 		var sb strings.Builder
 		sb.WriteString(t + "try\n" + t + "\t{\n" + t + "\tbb = {\n")
@@ -254,6 +268,10 @@ type c42model struct {
 	blocks, committedWithWork, rolledBackWithWork int
 	exitCommitted, exitRolledBack                 map[string]int
 	dupErrors, innerCaught, outerCaught           int
+	// the block being executed: 0 transaction active, 1 completed, 2 rolled back by the block itself
+	ended        int
+	explicitEnds map[string]int // class: explicit end + how the block was left
+	useAfterEnd  int
 }
 
 func copyTable(m map[int]int) map[int]int {
@@ -278,6 +296,28 @@ func sameTable(a, b map[int]int) bool {
 
 func (m *c42model) work(s step, tmp map[int]int) ctl {
 	k, v := s.k.eval(m.env), s.v.eval(m.env)
+	switch {
+	case s.kind == wComplete:
+		switch m.ended {
+		case 0:
+			m.table = copyTable(tmp) // the work so far is committed here
+			m.ended = 1
+		case 2:
+			return ctl{2, tranErr}
+		}
+		return ctl{}
+	case s.kind == wRollback:
+		switch m.ended {
+		case 0:
+			m.ended = 2
+		case 1:
+			return ctl{2, tranErr}
+		}
+		return ctl{}
+	case m.ended != 0 && s.kind != wNested:
+		m.useAfterEnd++
+		return ctl{2, tranErr} // the transaction can no longer be used
+	}
 	switch s.kind {
 	case wInsert, wOutput:
 		if _, ok := tmp[k]; ok {
@@ -335,6 +375,8 @@ func (m *c42model) exit(x exitStep, id int) (ctl, bool) {
 
 func (m *c42model) tran(b *tranBlock) ctl {
 	m.blocks++
+	m.ended = 0
+	before := m.table
 	tmp := copyTable(m.table)
 	var c ctl
 	how := ""
@@ -360,6 +402,19 @@ func (m *c42model) tran(b *tranBlock) ctl {
 				break
 			}
 		}
+	}
+	if m.ended != 0 {
+		// the block ended its transaction itself: that decided the database
+		// effect; the exit (value, return, exception) reaches the caller unchanged
+		cls := []string{"", "complete", "rollback"}[m.ended] + "_then_" + how
+		m.explicitEnds[cls]++
+		if m.ended == 1 && !sameTable(before, m.table) {
+			m.committedWithWork++
+		}
+		if m.ended == 2 && !sameTable(before, tmp) {
+			m.rolledBackWithWork++
+		}
+		return c
 	}
 	changed := !sameTable(tmp, m.table)
 	if c.kind == 0 || c.kind == 1 {
@@ -495,6 +550,21 @@ func (g *c42gen) tran(inLoop, inTry bool) *tranBlock {
 	for n := 1 + gen.Uniform(g.t, "nwork", 4); n > 0; n-- {
 		b.steps = append(b.steps, g.step(inLoop, allowTry, false))
 	}
+	if gen.Chance(g.t, "explicitend", 25) {
+		// the block ends its transaction itself, at any position, also twice,
+		// also followed by more work ("can't use ended transaction")
+		for n := 1 + gen.Weighted(g.t, "nends", []int{75, 25}); n > 0; n-- {
+			e := step{kind: wComplete}
+			if gen.Chance(g.t, "endrollback", 50) {
+				e.kind = wRollback
+			}
+			at := len(b.steps) // mostly after the work
+			if gen.Chance(g.t, "endearly", 35) {
+				at = gen.Uniform(g.t, "endat", len(b.steps)+1)
+			}
+			b.steps = append(b.steps[:at:at], append([]step{e}, b.steps[at:]...)...)
+		}
+	}
 	for n := gen.Uniform(g.t, "nguarded", 3); n > 0; n-- {
 		b.exits = append(b.exits, exitStep{g: g.guard(inLoop), kind: g.exitKind(allowTry, true)})
 	}
@@ -595,7 +665,7 @@ func c42case(t *rapid.T, rec *ev.Rec, l *lang) {
 
 	// model
 	m := &c42model{table: copyTable(init), env: map[string]int{"a": a, "b": b, "": 0},
-		exitCommitted: map[string]int{}, exitRolledBack: map[string]int{}}
+		exitCommitted: map[string]int{}, exitRolledBack: map[string]int{}, explicitEnds: map[string]int{}}
 	want := m.run(body)
 
 	// real
@@ -631,7 +701,8 @@ func c42case(t *rapid.T, rec *ev.Rec, l *lang) {
 		if pe == nil {
 			fail("the exception %q did not reach the caller: returned %v", want.val, res)
 		}
-		if got := pe.String(); got != want.val && !(want.val == "duplicate key" && strings.Contains(got, "duplicate key")) {
+		if got := pe.String(); got != want.val && !(want.val == "duplicate key" && strings.Contains(got, "duplicate key")) &&
+			!(want.val == tranErr && isTranErr(got)) {
 			fail("the caller got exception %q, model %q", got, want.val)
 		}
 	default:
@@ -652,6 +723,11 @@ func c42case(t *rapid.T, rec *ev.Rec, l *lang) {
 		s := core.ToStrOrString(log.ListGet(i))
 		if strings.HasPrefix(s, "inner:") && strings.Contains(s, "duplicate key") {
 			s = "inner:duplicate key"
+		}
+		for _, pre := range []string{"inner:", "outer:"} {
+			if strings.HasPrefix(s, pre) && isTranErr(s[len(pre):]) {
+				s = pre + tranErr
+			}
 		}
 		gotLog = append(gotLog, s)
 	}
@@ -688,6 +764,14 @@ func c42case(t *rapid.T, rec *ev.Rec, l *lang) {
 	for k, v := range m.exitRolledBack {
 		rec.LabelN("rolledback_by_"+k, v)
 	}
+	for k, v := range m.explicitEnds {
+		rec.LabelN("explicit_"+k, v)
+		rec.LabelN("blocks_ending_their_own_transaction", v)
+		if !strings.HasSuffix(k, "_then_fallthrough") {
+			rec.LabelN("explicit_end_then_nonlocal_exit", v)
+		}
+	}
+	rec.LabelN("use_of_transaction_after_explicit_end", m.useAfterEnd)
 	rec.LabelN("blocks_executed", m.blocks)
 	rec.LabelN("blocks_committed_with_visible_work", m.committedWithWork)
 	rec.LabelN("blocks_rolledback_with_work_undone", m.rolledBackWithWork)
@@ -704,11 +788,11 @@ func c42case(t *rapid.T, rec *ev.Rec, l *lang) {
 
 // TestC42: transaction blocks commit exactly when the block completes.
 func TestC42(t *testing.T) {
-	rec := ev.New("C42", "rapid-generated Suneido functions with 1-3 top-level statements (transaction block, for loop over 2-3 iterations, try/catch, log) containing `Transaction(update:) { |t| work; EXIT }` blocks: work = 1-4 of QueryDo insert/update/delete, query.Output, record.Update, record.Delete, a logged read, or a nested block that does work, throws and is caught inside the block; EXIT = optional guarded exits (on the loop variable or a function argument) and a final one from fall through / return / throw / break / continue / nested block that throws uncaught / nested block that returns (also through a try) / nested break; a duplicate-key insert makes the work itself throw. Compiled and called through the real interpreter and Transaction builtin on a db19 HeapStor database (StartConcur, DbmsLocal installed with core.GetDbms), table reset per case with an explicit transaction. Oracle: own interpreter of the program tree - work of a block is applied to the model table iff the block fell through or returned; the function result / the exception reaching the caller, the trace (reads inside transactions, values returned by Transaction, caught exceptions) and the table read back through a new explicit read transaction must match; no update transaction stays open. Non-trivial: a program in which at least one executed block had work that changes the table at its exit; distinct = by rendered setup + program.")
+	rec := ev.New("C42", "rapid-generated Suneido functions with 1-3 top-level statements (transaction block, for loop over 2-3 iterations, try/catch, log) containing `Transaction(update:) { |t| work; EXIT }` blocks: work = 1-4 of QueryDo insert/update/delete, query.Output, record.Update, record.Delete, a logged read, or a nested block that does work, throws and is caught inside the block; EXIT = optional guarded exits (on the loop variable or a function argument) and a final one from fall through / return / throw / break / continue / nested block that throws uncaught / nested block that returns (also through a try) / nested break; a duplicate-key insert makes the work itself throw. 25% of the blocks also call t.Complete() / t.Rollback() themselves (1-2 calls at any position; later work then fails on the ended transaction) before leaving in any of these ways. Compiled and called through the real interpreter and Transaction builtin on a db19 HeapStor database (StartConcur, DbmsLocal installed with core.GetDbms), table reset per case with an explicit transaction. Oracle: own interpreter of the program tree - work of a block is applied to the model table iff the block fell through or returned; the function result / the exception reaching the caller, the trace (reads inside transactions, values returned by Transaction, caught exceptions) and the table read back through a new explicit read transaction must match; no update transaction stays open. Non-trivial: a program in which at least one executed block had work that changes the table at its exit; distinct = by rendered setup + program.")
 	rec.Assumptions = []string{
 		"model written from suneidoc Database/Reference/Transaction/Transaction.md, Language/Blocks.md, Language/Statements/return.md",
 		"single client: commits cannot conflict, the documented 'block commit failed' path is not explored",
-		"explicit t.Complete()/t.Rollback() inside a block are not generated (what the block form then does is not documented)",
+		"a quarter of the blocks end their own transaction with t.Complete()/t.Rollback() (any position, also twice, also followed by more work): the explicit call decides the database effect, the block's exit (value, return, throw, break/continue, the error of using/ending an ended transaction) reaches the caller unchanged; the text of that error is not compared (any exception mentioning 'transaction'); ending the same way twice is taken as a no-op",
 		"the compiler rejects a try nested in a try (also through blocks), so a block inside try/catch contains no try",
 	}
 	defer rec.Write()
